@@ -58,6 +58,19 @@ theorem disconnect_once_sched (st0 : St) (h0 : Init st0) (sched : List Nat) (n :
   simp only [residue, Bool.or_eq_false_iff, decide_eq_false_iff_not] at q2
   exact ⟨q1, q2.1, by omega⟩
 
+/-- **Frame for bystanders.**  A task that is not a terminating path of this sid — in the model: a
+    task at `chandler` / `csend` (a CONNECT being answered), in the harness also: a refused CONNECT
+    of another transport, the disconnect of another client of the namespace, a repeated CONNECT or an
+    EVENT of the same transport — changes none of the sid's shared variables, whatever the other
+    tasks are doing; so `async_disconnect_once` holds verbatim with any number of such steps
+    interleaved (they are steps of `conn` tasks of `st0`, which the theorem already quantifies over). -/
+theorem bystander_frame (a : Bool) (st : St) (i : Nat) (t : Task) (hi : st.tasks[i]? = some t)
+    (hp : t.pc = .chandler ∨ t.pc = .csend) : (step a st i).sh = st.sh := by
+  obtain ⟨k, todo, pc⟩ := t
+  unfold step
+  simp only [hi]
+  rcases hp with hp | hp <;> (simp only at hp; subst hp; simp [stepTask])
+
 /-! ### non-vacuity -/
 
 /-- three concurrent causes on namespace 0 plus a suspended connect handler; the transport is also
